@@ -507,6 +507,7 @@ const (
 	aMapDel
 	aMapLen
 	aRecover
+	aDeepRead
 	aSkip
 )
 
@@ -591,6 +592,10 @@ func (r *rewriter) rewrite(f *ast.File) *ast.File {
 			}
 			if shimFuncs[r.pkgFunc(x)] != "" {
 				acts[x] = aShimFunc
+			}
+			if pf := r.pkgFunc(x); pkgRace && (pf == "encoding/json.Marshal" || pf == "encoding/json.MarshalIndent") && len(x.Args) > 0 {
+				// serialising a record READS the maps it holds (by reflection, invisible otherwise)
+				acts[x] = aDeepRead
 			}
 		case *ast.UnaryExpr:
 			if x.Op == token.ARROW && acts[x] == aNone {
@@ -701,6 +706,8 @@ func (r *rewriter) rewrite(f *ast.File) *ast.File {
 				x.Args[0] = call(vsel("MapW"), x.Args[0])
 			case aCap:
 				c.Replace(method(x.Args[0], "Cap"))
+			case aDeepRead:
+				x.Args[0] = call(vsel("DeepRead"), x.Args[0])
 			case aRecover:
 				// the controlled runtime unwinds killed threads with a panic of its own: a recover()
 				// of the code under test must let that one pass
